@@ -49,3 +49,28 @@ def validate_stream_traces(c, wd, trace):
     for x in rej:
         out.append((classify(x["event"]), x, cases.get(x["run"], {})))
     return out
+
+
+PREDICT_INVS = ["ProtocolSync", "Restored", "HopsInvert"]
+
+
+def mc_predict(c, wd, tier):
+    """Predict.tla: analyser / reconstructor protocol for every matcher oracle."""
+    base = {"N": 5, "MaxBlocks": 2, "MaxTok": 2, "MaxLen": 4, "MaxDist": 2, "Lazy": "TRUE", "ZlibCompat": "TRUE",
+            "AKeepsPending": "FALSE"}
+    runs = [("n5", base), ("n6", dict(base, N=6, MaxDist=1)), ("greedy", dict(base, Lazy="FALSE")),
+            ("notzlib", dict(base, N=6, MaxDist=1, ZlibCompat="FALSE"))]
+    if tier == "thorough":
+        runs += [("n6d2", dict(base, N=6)), ("n7", dict(base, N=7, MaxDist=1, MaxBlocks=3))]
+    for name, consts in runs:
+        r = mc("Predict", os.path.join(wd, "predict_" + name), constants=consts, invariants=PREDICT_INVS,
+               properties=["Finishes"], must_cover=["A_Block", "A_Token", "A_End", "R_EofCheck", "R_Block", "R_Token", "R_Final"],
+               timeout=14000, workers=12)
+        c.add_model(r, "analyser/reconstructor protocol, every stream of <= %s blocks over %s bytes and every matcher "
+                       "oracle (%s)" % (consts["MaxBlocks"], consts["N"], name))
+    # negative self-test: a deferred match kept across a block boundary by the analyser only
+    cfg = os.path.join(wd, "predict_neg.cfg")
+    write_cfg(cfg, constants=dict(base, N=6, MaxDist=1, AKeepsPending="TRUE"), invariants=PREDICT_INVS)
+    if tlc("Predict", cfg, os.path.join(wd, "predict_neg"), coverage=False, timeout=3000, workers=12)["ok"]:
+        raise ToolError("Predict.tla does not find the one-sided pending match in the negative configuration")
+    c.note("negative model (analyser keeps a deferred match across a block boundary) violates ProtocolSync as expected")
